@@ -12,6 +12,7 @@ static void run(const eng::Raw& raw, eng::Ctx& ctx)
 #endif
 	mt::Ops<C> o(ctx, true);
 	o.structural = (!raw.empty() && raw[0][2] % 3 == 0);
+	o.crowdMode = (!raw.empty() && (raw[0][2] / 3) % 6 == 0);
 	for (size_t i = 1; i < raw.size() && !o.failed; ++i) o.run_step(raw[i]);
 	ctx.nontrivial(o.destroyedSharing);
 	for (auto& s : o.ops) ctx.tag("op:" + s);
@@ -22,11 +23,14 @@ static void run(const eng::Raw& raw, eng::Ctx& ctx)
 		// destroy the remaining handles in a generated order
 		eng::LibSection ls(ctx, "mtbdd:destroy-all");
 		uint32_t sel = raw.empty() ? 0 : raw[0][1];
+		if (sel % 2) o.release_crowd();
 		while (!o.pool.empty()) {
 			size_t i = static_cast<size_t>(gen::mix(sel, o.pool.size()) % o.pool.size());
 			o.pool.erase(o.pool.begin() + static_cast<long>(i));
 		}
+		o.release_crowd();
 	}
+	if (o.crowdPeak) { ctx.tag(o.crowdPeak > 65536 ? "crowd:more-than-65536-references" : (o.crowdPeak > 1024 ? "crowd:more-than-1024-references" : "crowd:small")); }
 #ifdef LIBVATA_VERIF
 	const size_t leaves1 = MT::VerifLeafCacheSize(), internal1 = MT::VerifInternalCacheSize();
 	// Project may leave unreferenced intermediate nodes by design: the size law is stated for construction, copy and apply
